@@ -4,6 +4,7 @@ CONSTANTS
   DEV_MutateBeforeCheck = TRUE
   Level = 1
   Depth = 2
+  Cross = FALSE
 INIT Init
 NEXT Next
 CONSTRAINT Bound
